@@ -336,7 +336,8 @@ mod verif_inflate_core {
         if out_buf_size_mask == usize::MAX {
             assert!(source_pos < out_pos, "OBL:arms.transfer_pre_flat_source_before_destination [C05 C04]");
         } else {
-            assert!(out_buf_size_mask.wrapping_add(1) == out_slice.len() && source_pos <= out_buf_size_mask, "OBL:arms.transfer_pre_ring_geometry [C05]");
+            assert!(out_buf_size_mask.wrapping_add(1) == out_slice.len() && source_pos <= out_buf_size_mask
+                && out_buf_size_mask & out_buf_size_mask.wrapping_add(1) == 0, "OBL:arms.transfer_pre_ring_geometry [C05]");
         }
         AM_CALLS.fetch_add(1, Relaxed); AM_POS.store(out_pos, Relaxed); AM_LEN.store(match_len, Relaxed); AM_SRC.store(source_pos, Relaxed);
     }
@@ -1195,6 +1196,41 @@ mod verif_inflate_core {
         assert!(inv_l(&l), "OBL:longcodes.registers_well_formed [C05]");
         kani::cover!(matches!(oracle_long_code(v0, n0), Some((15, 15))), "COV:longcodes.fifteen_bit_code");
         kani::cover!(oracle_long_code(v0, n0).is_none(), "COV:longcodes.starved");
+    }
+
+    // ------------------------------------------------------------------
+    // K-applymatch : the real apply_match WITH the real transfer on a small buffer, against the RFC 1951 copy
+    // semantics (byte i reads index (src+i)&mask of the buffer as already updated). Complete in positions, distance,
+    // length, mode and contents; bounded in buffer length. (transfer alone is proved unbounded in Verus.)
+    // ------------------------------------------------------------------
+    #[kani::proof]
+    #[kani::unwind(18)]
+    fn k_apply_match_small_buffer() { apply_match_body::<16>(); }
+    #[kani::proof]
+    #[kani::unwind(10)]
+    fn k_apply_match_tiny_buffer() { apply_match_body::<8>(); }
+    fn apply_match_body<const N: usize>() {
+        let mut buf: [u8; N] = kani::any();
+        let mut reference = buf;
+        let len: usize = kani::any();
+        let flat: bool = kani::any();
+        kani::assume(len <= N && (flat || matches!(len, 1 | 2 | 4 | 8 | 16)));
+        let mask = if flat { usize::MAX } else { len - 1 };
+        let (out_pos, dist, match_len): (usize, usize, usize) = (kani::any(), kani::any(), kani::any());
+        // what the calling arms guarantee (k_arm_huff_decode_outer_loop2 / decompress_fast): the match fits, the
+        // distance is positive and reaches neither before the start (flat) nor beyond the ring
+        kani::assume(out_pos <= len && match_len <= len - out_pos && match_len >= 3 && dist >= 1 && (if flat { dist <= out_pos } else { dist <= len }));
+        // the slow path additionally never calls apply_match when the source overlaps the destination from above
+        let src = out_pos.wrapping_sub(dist) & mask;
+        let mut i = 0;
+        while i < N { if i < match_len { reference[out_pos + i] = reference[(src + i) & mask]; } i += 1; }
+        apply_match(&mut buf[..len], out_pos, dist, match_len, mask);
+        let k: usize = kani::any();
+        kani::assume(k < N);
+        assert!(buf[k] == reference[k], "OBL:applymatch.result_is_the_rfc_copy_and_nothing_else_changes [C03 C07 C08]");
+        kani::cover!(match_len == 3, "COV:applymatch.len3_cell_branch");
+        kani::cover!(!flat && src >= out_pos, "COV:applymatch.source_after_destination");
+        kani::cover!(dist == 1 && match_len > 4, "COV:applymatch.run");
     }
 
     //@PLAYBACK@
